@@ -217,8 +217,7 @@ def eval (L : Lang) (ρ : Env) : Expr → Res
   | .ite c a b =>
     thenRes (eval L ρ c) fun vc =>
       match truthy L vc with
-      | some true => eval L ρ a
-      | some false => eval L ρ b
+      | some t => if t then eval L ρ a else eval L ρ b
       | none => .err "condition is not a boolean"
   | .load t => if t = .bool || t = .mu64 then .err "load of bool / MaybeUninit" else .ok ⟨t, trunc t.memBits ρ.mem⟩
   | .wload n sx t => .ok (mk t (if sx then sext n ρ.mem else trunc n ρ.mem))
